@@ -394,12 +394,15 @@ def interpreter_guard_failure(inp):
              asg("s3", "<state>b", Sum((Variable("<state>b"), 1)), ["s2"], gn), asg("s4", "<state>n", Sum((n, 2)), ["s3"]),
              asg("s5", "<state>c", Sum((Variable("<state>c"), 1)), ["s4"], gn),
              asg("t1", "<state>d", Sum((Variable("<state>d"), 1)), [], gm), asg("t2", "<state>m", Sum((m, 1)), ["t1"]),
-             asg("t3", "<state>e", Sum((Variable("<state>e"), 1)), ["t2"], gm)]
+             asg("t3", "<state>e", Sum((Variable("<state>e"), 1)), ["t2"], gm),
+             # guards that are constants: False / 0 never take effect, True always does
+             asg("u1", "<state>f", Sum((Variable("<state>f"), 1)), [], False), asg("u2", "<state>f", Sum((Variable("<state>f"), 10)), ["u1"], 0),
+             asg("u3", "<state>f", Sum((Variable("<state>f"), 100)), ["u2"], True)]
     if cfg.get("reverse"):
         stmts.reverse()
     code = lang.DAGCode.from_phases_list([lang.ExecutionPhase("ph", "ph", stmts)], "ph")
     it = NumpyInterpreter(code, function_map={})
-    st = {"n": cfg["n0"], "m": cfg["m0"], "a": 0, "b": 0, "c": 0, "d": 0, "e": 0}
+    st = {"n": cfg["n0"], "m": cfg["m0"], "a": 0, "b": 0, "c": 0, "d": 0, "e": 0, "f": 0}
     it.set_up(t_start=0.0, dt_start=1.0, context=dict(st))
     want = dict(st)
     for _ in range(int(cfg.get("steps", 2))):
@@ -419,6 +422,7 @@ def interpreter_guard_failure(inp):
         want["m"] += 1
         if want["m"] > 0:
             want["e"] += 1
+        want["f"] += 100
         got = {k: it.context["<state>" + k] for k in want}
         if got != want:
             return "real interpreter, guards re-evaluated per statement: state %s, expected %s" % (got, want)
